@@ -143,15 +143,15 @@ impl FileSystem for Traced {
         Ok(Box::new(TracedFile { inner: f, mutations: Arc::clone(&self.mutations) }))
     }
     fn remove_file(&self, path: &Path) -> io::Result<()> {
-        self.enter_mut("remove_file");
+        self.enter_mut(if path.file_name().map(|n| n == "LOCK").unwrap_or(false) { "remove_lock_file" } else { "remove_file" });
         self.inner.remove_file(path)
     }
     fn remove_dir(&self, path: &Path) -> io::Result<()> {
-        self.enter();
+        self.enter_mut("remove_dir");
         self.inner.remove_dir(path)
     }
     fn remove_dir_all(&self, path: &Path) -> io::Result<()> {
-        self.enter();
+        self.enter_mut("remove_dir_all");
         self.inner.remove_dir_all(path)
     }
     fn get_file_size(&self, path: &Path) -> io::Result<u64> {
@@ -185,6 +185,12 @@ struct Owners {
     /// (start seq, end seq) of every open / destroy call
     open_calls: Vec<(u64, u64)>,
     destroy_calls: Vec<(u64, u64)>,
+    /// (start seq, end seq, shuttle task, returned Ok) of every open call
+    open_calls_by: Vec<(u64, u64, usize, bool)>,
+    /// (start seq, end seq, shuttle task) of every destroy call
+    destroy_calls_by: Vec<(u64, u64, usize)>,
+    /// (shuttle task, seq at which its close began)
+    closes_by: Vec<(usize, u64)>,
     /// ownership intervals: (task, tasks existing when its open began, open returned at, close began at)
     intervals: Vec<(usize, u64, u64, u64)>,
     open_now: std::collections::BTreeMap<usize, (u64, u64)>,
@@ -237,6 +243,7 @@ impl Ctx {
         {
             let mut g = self.owners.lock().unwrap();
             g.open_calls.push((t0, t1));
+            g.open_calls_by.push((t0, t1, rt::current_task(), matches!(r, Called::Ok(Ok(_)))));
             if matches!(r, Called::Ok(Ok(_))) {
                 // ownership starts when the file lock was granted inside this open call (the
                 // recovery that follows already relies on being the only instance)
@@ -300,6 +307,9 @@ impl Ctx {
         {
             let mut g = self.owners.lock().unwrap();
             g.current.remove(&task);
+            let me = rt::current_task();
+            let at = rt::next_seq();
+            g.closes_by.push((me, at));
             if let Some((existing, opened)) = g.open_now.remove(&task) {
                 let now = rt::next_seq();
                 g.intervals.push((task, existing, opened, now));
@@ -315,6 +325,7 @@ impl Ctx {
         let r = call("destroy_database", || DB::destroy_database(o));
         let t1 = rt::next_seq();
         self.owners.lock().unwrap().destroy_calls.push((t0, t1));
+        self.owners.lock().unwrap().destroy_calls_by.push((t0, t1, rt::current_task()));
         let after: BTreeSet<usize> = self.owners.lock().unwrap().current.clone();
         match r {
             Called::Ok(Ok(())) => {
@@ -524,6 +535,47 @@ pub fn body(case: &Case, out: &Shared) {
             o.stats.probe("destroy_overlapped_open");
         }
     });
+    // "destroy_database refuses to act while a database is open": destroy must hold the file lock
+    // for as long as it removes database files. If another task's DB::open was granted the lock
+    // after the destroy call began, returned Ok and had not begun to close when destroy removed a
+    // WAL / table directory or a CURRENT / manifest file, destroy acted on an open database. (The
+    // removal of the LOCK file and of the emptied directory after destroy released its lock is the
+    // known finding above and is not counted here.) Pushed after the suffix loop: this class needs
+    // no destroy/open overlap qualifier, it is that overlap.
+    if !rt::is_poisoned() {
+        let muts = fs.mutations.lock().unwrap();
+        let grants = fs.locks.lock().unwrap();
+        'destroy: for (d0, d1, dt) in g.destroy_calls_by.iter() {
+            for (m, w, what) in muts.iter() {
+                if *w != *dt || *m <= *d0 || *m >= *d1 || !matches!(*what, "remove_dir_all" | "remove_file") {
+                    continue;
+                }
+                for (gs, u) in grants.iter() {
+                    if *u == *dt || *gs <= *d0 || *gs >= *m {
+                        continue;
+                    }
+                    // the open call of task u that contains this grant must have succeeded ...
+                    let Some((_, o1, _, true)) = g.open_calls_by.iter().find(|(o0, o1, t, _)| *t == *u && *o0 < *gs && *gs < *o1).copied() else { continue };
+                    // ... and its handle must still be open at the time of the removal
+                    let closed_before = g.closes_by.iter().any(|(t, c)| *t == *u && *c > o1 && *c < *m);
+                    if closed_before {
+                        continue;
+                    }
+                    push_finding(
+                        out,
+                        Finding::new(
+                            &["C17"],
+                            "destroy-acted-on-open-database",
+                            what,
+                            format!("destroy_database called by task {} (events {}..{}) performed {} at event {} although task {} had been granted the file lock at event {} inside a DB::open that succeeded and whose handle was still open: destroy does not hold the lock while it removes the database files", dt, d0, d1, what, m, u, gs),
+                            None,
+                        ),
+                    );
+                    break 'destroy;
+                }
+            }
+        }
+    }
     let calls = *fs.calls.lock().unwrap();
     with_out(out, |o| {
         o.stats.fs_calls += calls;
